@@ -13,7 +13,7 @@ ASSUMPTIONS = ['this property is decided directly on the real compiler (metamorp
                '(no rule inside a rule / no @media inside a rule / no variable token in an evaluated value)']
 TRUSTED = ['the plain-CSS detector below (regex-based, quote aware)']
 LEVEL_NOTE = 'partial'
-FEATURES = ['media', 'amp', 'leadcomb', 'var', 'keyframes', 'fontface', 'stmt', 'str', 'url', 'attr', 'pseudo2']
+FEATURES = ['media', 'amp', 'leadcomb', 'var', 'keyframes', 'fontface', 'stmt', 'str', 'rstr', 'istr', 'url', 'attr', 'pseudo2', 'noglue']     # noglue: no '&&' (two parents glued: 'nav'+'h1' = an element name the front end does not read back)
 
 
 def strip_strings(css):
@@ -61,7 +61,9 @@ def run(ctx):
             gm = S.Gen(rng, ['media', 'amp', 'attr', 'istr'])
             sh = gm.mixin_program()
         else:
-            sh = g.sheet(nunits=rng.choice([1, 2, 3]), depth=rng.randint(1, 3))
+            names = rng.sample(['@i1', '@i2', '@n'], rng.randint(0, 2))       # identifier / number valued, for "..@{name}.." strings
+            g.ivars = names
+            sh = [('var', nm, [rng.choice([('num', '5'), ('word', 'foo'), ('num', '12px')])]) for nm in names] + g.sheet(nunits=rng.choice([1, 2, 3]), depth=rng.randint(1, 3))
         if k < 0.5:
             # calls that yield nothing (guard not satisfied, empty mixin, unknown mixin) next to local variable definitions, local
             # variables only, calls only: such rules have nothing to print (raw text units: this check needs no node tree)
